@@ -2112,8 +2112,20 @@ SPEC_GOOD = [
 ]
 
 
+# behaviour outside the listed properties that the model exhibits (documented in observations/README.md):
+# the config is expected to be refuted; if it ever passes, the note is out of date
+SPEC_OBSERVATIONS = [
+    ("MC_Interlock.tla", "Interlock_three.cfg", "NoLoss"),
+]
+
+
 def selftest():
     bad = 0
+    for module, cfg, inv in SPEC_OBSERVATIONS:
+        r = cvlib.run_tlc_model(module, cfg, timeout=900)
+        seen = (not r["ok"]) and ("is violated" in r["out"]) and (inv in r["out"])
+        print(f"[selftest] observation {cfg}: {'exhibited by the model (' + inv + ')' if seen else 'NOT exhibited: observations/README.md is out of date'}")
+        bad += 0 if seen else 1
     for module, cfg, inv in SPEC_MUTANTS:
         r = cvlib.run_tlc_model(module, cfg, timeout=900)
         refuted = (not r["ok"]) and ("is violated" in r["out"]) and (inv in r["out"])
